@@ -497,11 +497,7 @@ func rulePairLoaded(c *Ctx) {
 
 func rulePairCacheCount(c *Ctx) {
 	p := c.P
-	getSub := p.Fn("(*rescache.Cache).getSubscription")
-	if getSub == nil {
-		c.undecided("(*rescache.Cache).getSubscription", "anchor", "-", "function not found")
-		return
-	}
+	getSub := p.Fn("(*rescache.Cache).getSubscription") // may be gone (split into several acquirers): found by shape below
 	fCount := p.Field("rescache.EventSubscription.count")
 	addCount := p.Method("rescache.EventSubscription.addCount")
 	removeCount := p.Method("rescache.EventSubscription.removeCount")
@@ -554,7 +550,7 @@ func rulePairCacheCount(c *Ctx) {
 	}
 	acquirers := map[*ssa.Function]int{} // -> index of the error result, or -1
 	for _, f := range p.Repo {
-		if f.Parent() != nil || f.Pkg != getSub.Pkg || f.Object() == nil || (f.Object().Exported() && f != getSub) {
+		if f.Parent() != nil || f.Pkg == nil || f.Pkg.Pkg.Name() != "rescache" || f.Object() == nil || (f.Object().Exported() && f != getSub) {
 			continue
 		}
 		ei, ok := returnsES(f)
@@ -583,6 +579,10 @@ func rulePairCacheCount(c *Ctx) {
 	var acqFuncs []*types.Func
 	for f := range acquirers {
 		acqList = append(acqList, f)
+	}
+	if len(acqList) == 0 {
+		c.undecided("(*rescache.Cache).getSubscription", "anchor", "-", "no function that acquires a cache use found")
+		return
 	}
 	sort.Slice(acqList, func(i, j int) bool { return fnName(acqList[i]) < fnName(acqList[j]) })
 	for _, f := range acqList {
